@@ -207,6 +207,25 @@ _ADD = {
     "C19": " T15: rotation_from_matrix - for R = Rodrigues(angle, unit axis d) and eigenvector d, each of the three magnitude branches hands (sin, cos) of the very angle to arctan2 (numpy.linalg.eig / where / real are stubbed so that the unit eigenvector is d).",
     "C20": " R6: every np.lib.stride_tricks.as_strided window over file bytes spans exactly the `count` its np.frombuffer base was created with (polynomial identity in the values read from the file), or an explicit test of that span against len(data) precedes it.",
 }
+# round 5 (two cooperating sites / multi-step histories / unusual inputs): rules added after that batch of seeded changes
+_ADD5 = {
+    "C01": " R13: a value stored by hand into `<o>._cache[key]` depends only on what that cache is keyed on - no read of `<o>.visual` / metadata / attributes reaches it unless the key folds that state in, and a value computed from a method ARGUMENT is not keyed / validated by the argument's shape only. R7: loop variables over containers are not fresh objects (raw reads of their memo need a verification).",
+    "C04": " R11: is_rigid compares R R^T - I itself (polynomial identity on a symbolic 4x4): a gram matrix divided by its trace or a row norm accepts similarities, which Primitive.apply_transform relies on being refused.",
+    "C06": " R4 also: a value returned outside the range-guarded bit packing is row content unchanged - an arithmetic fold (multiply-add, xor) of the columns is reported as not injective. R11: the default digits are read from tol.merge at call time, never frozen in a module-level constant or default argument of grouping.py.",
+    "C08": " R11: the SVG sweep flag of an open arc is sign-equivalent to the orientation of its ordered control points (E3 on a symbolic triple with the circumcentre; refuted by evaluating the extracted rational function at witness triples). R12: an exporter that memoises text on the mesh (`mesh._cache[...]`) does not compute it from mesh.visual / metadata.",
+    "C09": " R9: no function that writes the forest re-certifies resolved transforms computed before the write (id_set / replacing the raw memo dict) with a retention filter that looks at one end point of the (frame_from, frame_to) key only.",
+    "C10": " R10: as C09-R9 (the scene quantities are computed from the resolved transforms).",
+    "C11": " R14: the hole seeds handed to the `triangle` engine are representative points of the hole (a centroid / mean is outside a non-convex hole). R15: every multi-ring result of edges_to_polygons is assembled from enclosure_tree (no containment shortcut; only the empty / single-ring case returns before it).",
+    "C12": " P2: the r-tree nearby_faces queries covers every triangle of the mesh in face order (its ids are used as face indices); a tree over a filtered subset is reported, followed through helpers and memo entries.",
+    "C13": " N1 also understands `(L - 1) // m` forms and requires the repetition count of the full chunk to be non-negative for every run, the empty run included (Python repeats a list zero times for a negative count). V3: no method of a voxel class keeps memo entries across a write of its hashed data (cache lock / exclude set), except scale, pitch and unit_volume across a store into the translation column.",
+    "C14": " A6: SVG sweep flag (as C08-R11). A7: edges_to_polygons passes through enclosure_tree (as C11-R15). A8: with a simple vertex graph every `nodes` implementation of a curved entity routes through an interior control point. R9: hand-written memo stores of path / entity objects (as C01-R13): Arc.length memoised by point indices and the shape of the vertex array is reported.",
+    "C15": " R11: hole seeds (as C11-R14). R12: is_rigid (as C04-R11). R13: a creation function that places raw vertices with transform_points and a caller matrix re-winds the faces under flips_winding of that matrix (reported the pinned revolve: fix 39e8724).",
+    "C16": " B6: the bounding / hull routines of nsphere.py, bounds.py and convex.py have no write effect through any argument (E1): in particular no in-place rescaling of the vertex array of the object's memoised convex hull, which hull_points returns without a copy.",
+    "C17": " R3 also: the reviewed hand-over in Trimesh.copy(include_cache=True) covers the mesh's own memo only; handing the memo of a sub-object (visual: writable generated colours) to the copy is reported.",
+    "C18": " R9: Trimesh.subdivide / subdivide_to_size / subdivide_loop return only what the remesh routine of the same name produced (every entry-to-return path passes one of its calls); a shortcut under a bounding-box test is reported.",
+    "C19": " T16: is_rigid (as C04-R11).",
+    "C20": " R8: no function within two calls of a loader module allocates an array whose length is the largest VALUE of index data (`np.zeros(idx.max() + 1)`) unless that maximum is tested against a length first, in the function or in every caller that can reach the allocation (option guards honoured) - reported the pinned load_obj(maintain_order=True): fix 12bb1d1.",
+}
 for _pid in list(CHECKS):
     _cat, _tech, _text, _note, _ref = CHECKS[_pid]
-    CHECKS[_pid] = (_cat, _tech, _text + _ADD.get(_pid, "") + _POLICY, _note, _ref)
+    CHECKS[_pid] = (_cat, _tech, _text + _ADD.get(_pid, "") + _ADD5.get(_pid, "") + _POLICY, _note, _ref)
